@@ -13,6 +13,27 @@
                                          \b \f  , sonic's \u0008 \u000c and raw U+2028, HTML escapes
                                          on or off) unquote to the same bytes
 
+  Against the separately written byte-level specification of encoding/json (Model/EncStd.lean, tied to the real
+  encoding/json by the `ref=` answers of every C03 stream, judge `model_ref_disagree`):
+
+  * `encode_eq_std_partial`              on the sub-universe `EncStd.stdSub` (scalars, strings, []byte and []uint8,
+                                         pointers, interfaces, slices, arrays, maps whose keys are strings, integers
+                                         or TextMarshalers with pairwise different texts, structs with tags, name
+                                         conflicts, omitempty and `,string`, the recursive library structs, the
+                                         TextMarshaler library types) `Enc.encode` under the std option word and
+                                         `EncStd.marshal` succeed together with the same bytes.  Outside it:
+                                         json.Number, RawMessage and json.Marshaler text (encoding/json's `compact`
+                                         against the model's parse-and-render), the embedded-field library type,
+                                         `omitzero`
+  * `std_field_resolution`, `std_emptiness`, `std_string_literal`, `std_integer_text`, `std_base64`,
+    `std_sort_is_model_sort`            the leaves of that agreement, each for all inputs
+  * `std_struct_members`, `std_map_members`, `std_output_wellformed`   the per-aspect theorems above (and C04's
+                                         well-formedness) carried over to `EncStd.marshal`
+  * `std_unsupported_key_whatever_the_value`, `std_nil_is_null`   read off the specification directly
+  * `omitzero_not_in_go_1_23`            the one place where the two specifications differ by design
+  * `known_*_fails`, `std_no_depth_limit`  one kernel-checked witness per recorded finding C03-*: the output
+                                         recorded from sonic is not the specification's answer
+
   What is NOT here: the compiler-correctness theorem `exec (compile T) = encode` (the encoder IR is a
   separate work package); addressability-dependent dispatch is part of the model (`addr`) but no theorem
   is stated about sonic's `pv` flag.
@@ -20,6 +41,8 @@
 import SonicSpec.Proofs.EncOrder
 import SonicSpec.Proofs.EncUnq
 import SonicSpec.Proofs.EncWF
+import SonicSpec.Proofs.EncStdEq
+import SonicSpec.Model.EncDec
 namespace SonicSpec.Props.C03
 open SonicSpec SonicSpec.Enc SonicSpec.Json SonicSpec.Go
 
@@ -122,6 +145,175 @@ theorem literal_denotes (html : Bool) (s : Bytes) :
   · exact unq_quoteBody_raw html s
   · rw [unq_quoteBody_fixed, coerce_valid hv]
 
+
+/-! ### against the byte-level specification of encoding/json (Model/EncStd.lean) -/
+
+open SonicSpec.EncStd in
+/-- on `stdSub` the token-level model under the std option word and the byte-level specification written from
+    encoding/json's rules succeed together and write the same bytes -/
+theorem encode_eq_std_partial (html : Bool) (T : GoType) (v : GoVal) (h : EncStd.stdSub T v = true) :
+    (Enc.encode (EncStd.stdO html) T v).toOption = (EncStd.marshal html T v).toOption := by
+  have := (eq_std_all html).1 false T v h
+  simp only [opt] at this
+  unfold Enc.encode Enc.encodeJ marshal
+  rw [this]
+  cases encV (stdO html) false T v <;> rfl
+
+/-- the same, for a value below a pointer or in a slice (addressable: pointer-receiver methods are reachable) -/
+theorem encV_eq_std_partial (html addr : Bool) (T : GoType) (v : GoVal) (h : EncStd.stdSub T v = true) :
+    ((Enc.encV (EncStd.stdO html) addr T v).map render).toOption = (EncStd.encValue html addr T v).toOption := by
+  have := (EncStd.eq_std_all html).1 addr T v h
+  simp only [EncStd.opt] at this
+  rw [this]
+  cases encV (EncStd.stdO html) addr T v <;> rfl
+
+/-- field resolution: counting same-named fields (encoding/json typeFields / dominantField without embedding)
+    keeps exactly the fields the model's `keepList` keeps, for every declaration -/
+theorem std_field_resolution (fs : List (String × Option Bytes × GoType)) :
+    EncStd.typeFields fs = (Enc.keepList fs).map EncStd.convL := EncStd.typeFields_eq fs
+
+/-- emptiness by the kind of the static type (encode.go isEmptyValue) is the model's table -/
+theorem std_emptiness (T : GoType) (v : GoVal) (h : EncStd.kindMatch T v = true) :
+    EncStd.isEmptyValue T v = Enc.isEmptyV T v := EncStd.isEmptyValue_eq T v h
+
+/-- the byte loop of encode.go appendString (safe sets, `\u00xx`, U+FFFD, U+2028/9) writes the model's literal -/
+theorem std_string_literal (html : Bool) (s : Bytes) :
+    EncStd.appendString html s = Enc.quoteLit html true s := EncStd.appendString_eq html s
+
+theorem std_integer_text (i : Int) (n : Nat) : Num.itoa i = Enc.intDec i ∧ Num.natDigits n = Enc.natDec n :=
+  ⟨EncStd.itoa_eq i, EncStd.natDigits_eq n⟩
+
+theorem std_base64 (b : Bytes) : EncStd.base64 b = Enc.b64 b := EncStd.base64_eq b
+
+/-- `slices.SortFunc` by key text (a merge sort here) and the model's insertion sort give the same member list
+    whenever the key texts differ pairwise -/
+theorem std_sort_is_model_sort (es : List (Bytes × JVal)) (hn : (es.map (·.1)).Nodup) :
+    (es.map fun e => (e.1, render e.2)).mergeSort EncStd.keyLE = (Enc.sortKV es).map fun e => (e.1, render e.2) :=
+  EncStd.mergeSort_eq_sortKV es hn
+
+/-- `field_order_is_declaration_order` carried over: what `EncStd.marshal` writes for a struct is the object of the
+    kept, non-omitted fields in declaration order -/
+theorem std_struct_members (html : Bool) (fs : List (String × Option Bytes × GoType)) (vs : List GoVal) (b : Bytes)
+    (hs : EncStd.stdSub (.st fs) (.st vs) = true) (h : EncStd.marshal html (.st fs) (.st vs) = .ok b) :
+    ∃ ks ms, Enc.keepList fs = some ks ∧ b = render (.obj ms) ∧
+      ms.map (·.1) = (Enc.emitted ks vs).map (fun f => Enc.nameKey (EncStd.stdO html) f.name) ∧
+      (Enc.emitted ks vs).Sublist (Enc.kept ks) := by
+  have e := encode_eq_std_partial html _ _ hs
+  rw [h] at e
+  unfold Enc.encode Enc.encodeJ at e
+  cases hj : encV (EncStd.stdO html) false (.st fs) (.st vs) with
+  | error x => rw [hj] at e; cases e
+  | ok j =>
+    rw [hj] at e
+    obtain ⟨ks, ms, h1, h2, h3, h4⟩ := field_order_is_declaration_order _ _ _ _ _ hj
+    refine ⟨ks, ms, h1, ?_, h3, h4⟩
+    subst h2
+    have : some (render (JVal.obj ms)) = some b := e
+    exact (Option.some.inj this).symm
+
+/-- `sorted_keys` carried over: what `EncStd.marshal` writes for a map is the object of the entries in
+    non-decreasing key order -/
+theorem std_map_members (html : Bool) (k t : GoType) (kvs : List (GoVal × GoVal)) (b : Bytes)
+    (hs : EncStd.stdSub (.map k t) (.map kvs) = true) (h : EncStd.marshal html (.map k t) (.map kvs) = .ok b) :
+    ∃ es srt ms, Enc.encM (EncStd.stdO html) k t kvs = .ok es ∧ srt.Perm es ∧ Enc.SortedKV srt ∧
+      Enc.keyBodies (EncStd.stdO html) k srt = .ok ms ∧ b = render (.obj ms) ∧ ms.map (·.2) = srt.map (·.2) := by
+  have e := encode_eq_std_partial html _ _ hs
+  rw [h] at e
+  unfold Enc.encode Enc.encodeJ at e
+  cases hj : encV (EncStd.stdO html) false (.map k t) (.map kvs) with
+  | error x => rw [hj] at e; cases e
+  | ok j =>
+    rw [hj] at e
+    obtain ⟨es, srt, ms, h1, h2, h3, h4, h5, h6⟩ := sorted_keys (EncStd.stdO html) rfl _ _ _ _ _ hj
+    refine ⟨es, srt, ms, h1, h2, h3, h4, ?_, h6⟩
+    subst h5
+    have : some (render (JVal.obj ms)) = some b := e
+    exact (Option.some.inj this).symm
+
+/-- what `EncStd.marshal` writes on the sub-universe is one well-formed JSON value -/
+theorem std_output_wellformed (html : Bool) (T : GoType) (v : GoVal) (b : Bytes)
+    (hs : EncStd.stdSub T v = true) (h : EncStd.marshal html T v = .ok b) : (Json.parseDoc b).isSome = true := by
+  have e := encode_eq_std_partial html _ _ hs
+  rw [h] at e
+  unfold Enc.encode Enc.encodeJ at e
+  cases hj : encV (EncStd.stdO html) false T v with
+  | error x => rw [hj] at e; cases e
+  | ok j =>
+    rw [hj] at e
+    have : some (render j) = some b := e
+    rw [← Option.some.inj this, parseDoc_render (encV_wf hj)]
+    rfl
+
+/-- a map type whose key kind encoding/json does not support is an UnsupportedTypeError whatever the value, nil
+    and empty maps included (newMapEncoder decides by type) -/
+theorem std_unsupported_key_whatever_the_value (html : Bool) (k t : GoType) (v : GoVal) (h : EncStd.mapKeyOK k = false) :
+    EncStd.marshal html (.map k t) v = .error .unsupportedType := by
+  cases v <;> simp [EncStd.marshal, EncStd.encValue, h]
+
+/-- nil pointers, interfaces, slices, maps and []byte are `null` -/
+theorem std_nil_is_null (html : Bool) (t : GoType) :
+    EncStd.marshal html (.ptr t) .nil = .ok (ascii "null") ∧ EncStd.marshal html .any .nil = .ok (ascii "null") ∧
+    EncStd.marshal html (.sl t) .nil = .ok (ascii "null") ∧ EncStd.marshal html .bytes .nil = .ok (ascii "null") ∧
+    EncStd.marshal html (.map .str t) .nil = .ok (ascii "null") := by
+  have hn : ascii "null" = EncStd.nullText := by decide
+  rw [hn]
+  refine ⟨?_, ?_, ?_, ?_, ?_⟩ <;> simp [EncStd.marshal, EncStd.encValue, EncStd.mapKeyOK]
+
+/-! ### where the two specifications differ by design, and the recorded findings as witnesses -/
+
+/-- Go 1.23 (the toolchain of the pinned tree) does not know `omitzero`: encoding/json writes the member, the
+    model (which follows sonic's own tag reader, a Go 1.24 feature) drops it; `stdSub` excludes such fields -/
+theorem omitzero_not_in_go_1_23 :
+    EncStd.marshal false (.st [("G", some (ascii "g,omitzero"), .int 64)]) (.st [.int 0]) = .ok (ascii "{\"g\":0}") ∧
+    Enc.encode (EncStd.stdO false) (.st [("G", some (ascii "g,omitzero"), .int 64)]) (.st [.int 0]) = .ok (ascii "{}") := by
+  decide +kernel
+
+/-- C03-string-opt-inner-literal: `struct{ S string "s,string" }{"\b"}`. The specification writes the inner
+    literal with `\b`; sonic's recorded output has `\u0008` inside, which denotes another string -/
+theorem known_string_opt_inner_literal_fails :
+    EncStd.marshal false (.st [("S", some (ascii "s,string"), .str)]) (.st [.str [8]]) =
+      .ok (ascii "{\"s\":\"\\\"\\\\b\\\"\"}") ∧
+    Enc.textEq true (ascii "{\"s\":\"\\\"\\\\b\\\"\"}") (ascii "{\"s\":\"\\\"\\\\u0008\\\"\"}") = false := by
+  decide +kernel
+
+/-- C03-omitempty-negative-zero: `struct{ G float64 "g,omitempty" }{-0.0}`. The specification omits the member;
+    sonic's recorded output is `{"g":-0}` -/
+theorem known_omitempty_negative_zero_fails :
+    EncStd.marshal false (.st [("G", some (ascii "g,omitempty"), .f64)]) (.st [.f64 0x8000000000000000]) = .ok (ascii "{}") ∧
+    Enc.textEq true (ascii "{}") (ascii "{\"g\":-0}") = false := by
+  decide +kernel
+
+/-- C03-map-key-kinds-beyond-std: `map[bool]int{}` and a nil `map[float64]int`. The specification reports an
+    unsupported type whatever the value; sonic's recorded answers are `{}` and `null` -/
+theorem known_map_key_kinds_beyond_std_fails :
+    EncStd.marshal false (.map .bool (.int 64)) (.map []) = .error .unsupportedType ∧
+    EncStd.marshal false (.map .f64 (.int 64)) .nil = .error .unsupportedType := by
+  decide +kernel
+
+/-- `[][]…[]int64` with n+1 levels, and its value `[[…[]…]]` -/
+def nestT : Nat → GoType
+  | 0 => .sl (.int 64)
+  | n + 1 => .sl (nestT n)
+def nestV : Nat → GoVal
+  | 0 => .sl []
+  | n + 1 => .sl [nestV n]
+
+/-- C03-max-stack-depth: the specification has no nesting limit (sonic answers `Value nesting too deep` above
+    4096 levels) -/
+theorem std_no_depth_limit (html : Bool) : ∀ n, ∃ b, EncStd.marshal html (nestT n) (nestV n) = .ok b := by
+  intro n
+  unfold EncStd.marshal
+  generalize false = addr
+  induction n generalizing addr with
+  | zero => exact ⟨[91, 93], rfl⟩
+  | succ n ih =>
+    obtain ⟨t', ht⟩ : ∃ t', nestT n = .sl t' := by cases n <;> exact ⟨_, rfl⟩
+    obtain ⟨b, hb⟩ := ih true
+    refine ⟨91 :: (b ++ [93]), ?_⟩
+    simp only [nestT, nestV]
+    rw [ht] at hb ⊢
+    simp [EncStd.encValue, EncStd.encElems, hb, bind, Except.bind, Except.map, pure, Except.pure]
+
 /-! ### non-vacuity -/
 
 /-- `\b` (encoding/json) and `\u0008` (sonic) are different spellings that unquote to the same byte -/
@@ -140,5 +332,38 @@ example : Enc.encode EncOpts.std (.map (.int 64) .bool) (.map [(.int 9, .bool tr
 example : Enc.encode EncOpts.std
     (.st [("A", some (ascii "a,omitempty"), .sl .bool), ("F", some (ascii "f,omitempty"), .f64), ("P", some (ascii "p,omitempty"), .ptr .str)])
     (.st [.sl [], .f64 0x8000000000000000, .ptr (.str [])]) = .ok (ascii "{\"p\":\"\"}") := by decide +kernel
+
+
+/-- `stdSub` is inhabited by a value that uses every stage: tags, a name conflict, omitempty, `,string`, a map with
+    integer keys, a map with TextMarshaler keys, a slice of pointers, an interface, []byte, []uint8, the recursive
+    library struct, the value- and pointer-receiver TextMarshaler library types -/
+example : EncStd.stdSub
+    (.st [("A", some (ascii "a,omitempty"), .int 64), ("B", some (ascii "b,string"), .f64), ("X", some (ascii "n"), .bool),
+          ("Y", some (ascii "n"), .bool), ("M", none, .map (.int 64) .str), ("P", none, .sl (.ptr .str)), ("I", none, .any),
+          ("Z", none, .bytes), ("U", none, .sl (.uint 8)), ("K", none, .map (.lib "TV") .bool), ("R", none, .ptr (.lib "Rec")),
+          ("T", none, .lib "TP"), ("L", none, .lib "LT")])
+    (.st [.int 0, .f64 0x3ff8000000000000, .bool true, .bool false, .map [(.int 10, .str [60]), (.int 9, .str [8])],
+          .sl [.nil, .ptr (.str [226, 128, 168])], .any .bool (.bool true), .bytes [1, 2, 3], .sl [.uint 7, .uint 255],
+          .map [(.st [.int 2], .bool true), (.st [.int 1], .bool false)], .ptr (.st [.int 1, .ptr (.st [.int 2, .nil])]),
+          .st [.int 5], .lib [60, 62]]) = true := by
+  decide +kernel
+
+def exT : GoType :=
+  .st [("A", some (ascii "a,omitempty"), .int 64), ("B", some (ascii "b,string"), .f64), ("X", some (ascii "n"), .bool),
+       ("Y", some (ascii "n"), .bool), ("M", none, .map (.int 64) .str)]
+def exV : GoVal :=
+  .st [.int 0, .f64 0x3ff8000000000000, .bool true, .bool false, .map [(.int 10, .str [60]), (.int 9, .str [8])]]
+
+/-- the agreement theorem at work: the specification's bytes for a struct with a two-entry map (whose merge sort the
+    kernel does not unfold) are read off the model's side -/
+example : EncStd.marshal true exT exV = .ok (ascii "{\"b\":\"1.5\",\"M\":{\"10\":\"\\u003c\",\"9\":\"\\b\"}}") := by
+  have e := encode_eq_std_partial true exT exV (by decide +kernel)
+  have h : Enc.encode (EncStd.stdO true) exT exV =
+      .ok (ascii "{\"b\":\"1.5\",\"M\":{\"10\":\"\\u003c\",\"9\":\"\\b\"}}") := by decide +kernel
+  rw [h] at e
+  generalize EncStd.marshal true exT exV = r at e
+  cases r with
+  | error x => cases e
+  | ok b => have : some _ = some b := e; rw [Option.some.inj this]
 
 end SonicSpec.Props.C03
